@@ -88,6 +88,7 @@ type ObResult struct {
 	Output  string  `json:"output,omitempty"`
 	Func    string  `json:"func,omitempty"`
 	Pkg     string  `json:"pkg,omitempty"`
+	Replay  *ReplayInfo `json:"replay,omitempty"`
 }
 
 type FuncRun struct {
@@ -191,7 +192,7 @@ func (ex *Exec) freshParam(name string, t types.Type, st *State) Value {
 			sv := &StructV{T: stt, Name: structName(t)}
 			ensureStructSort(sv.Name, stt)
 			for i := 0; i < stt.NumFields(); i++ {
-				sv.Fields = append(sv.Fields, Sym(name+"."+stt.Field(i).Name(), sortOfType(stt.Field(i).Type())))
+				sv.Fields = append(sv.Fields, Sym(name+"_"+stt.Field(i).Name(), sortOfType(stt.Field(i).Type())))
 			}
 			return sv
 		}
@@ -226,7 +227,7 @@ func slug(s string) string {
 	return regexp.MustCompile(`[^A-Za-z0-9_.#-]+`).ReplaceAllString(s, "_")
 }
 
-const scriptHead = "(set-option :produce-models true)\n"
+const scriptHead = "(set-option :produce-models true)\n(set-logic ALL)\n"
 
 // ScriptFor renders the SMT script deciding one obligation.
 func ScriptFor(prelude string, assumes []*Term, goal *Term, quant bool) string {
